@@ -265,6 +265,32 @@ def judgeGrpc : List (String × Option Nat) → List Obs → String
         if o.proto = docTable 0 then s!"fail:proto:request that was never sent reported as {o.proto} (= status OK)"
         else judgeGrpc rest os
 
+/-- Several instances shoot the entries of one gRPC ammo file: the samples arrive in any order, so they are judged as a
+BAG. Every request whose call was made (`tag`, status code `c`) accounts for one sample tagged `tag` and coded
+`docTable c`: for every tag the number of samples carrying it is the number of requests carrying it, and for every
+(tag, documented code) pair likewise. -/
+def judgeGrpcBag (reqs : List (String × Nat)) (obs : List Obs) : String :=
+  if obs.length < reqs.length then "fail:count:fewer samples than requests"
+  else if obs.length > reqs.length then "fail:count:more samples than requests"
+  else
+    let tagCount (t : String) : Nat × Nat := ((reqs.filter fun r => r.1 == t).length, (obs.filter fun o => o.tags == t).length)
+    match obs.find? fun o => (tagCount o.tags).1 != (tagCount o.tags).2 with
+    | some o => s!"fail:tag:{(tagCount o.tags).2} sample(s) carry the tag {o.tags} but {(tagCount o.tags).1} request(s) do"
+    | none =>
+      let pairCount (t : String) (p : Nat) : Nat × Nat :=
+        ((reqs.filter fun r => r.1 == t && docTable r.2 == p).length, (obs.filter fun o => o.tags == t && o.proto == p).length)
+      match obs.find? fun o => (pairCount o.tags o.proto).1 != (pairCount o.tags o.proto).2 with
+      | some o => s!"fail:proto:{(pairCount o.tags o.proto).2} sample(s) tagged {o.tags} are coded {o.proto} but {(pairCount o.tags o.proto).1} request(s) with that tag have a status documented as {o.proto}"
+      | none => "ok"
+
+/-- "Unique within a run", for a stretch of a run: `start` ammo were acquired before (they carried the ids the counter
+handed out until then: `1 … start` for a counter that has not wrapped), `count` samples were observed after that with
+`distinct` different ids, `below` of which are `≤ start`. -/
+def judgeIdsFrom (start count distinct below : Nat) : String :=
+  if distinct ≠ count then s!"fail:ids:{count} samples carry only {distinct} distinct ids"
+  else if below ≠ 0 then s!"fail:ids:{below} sample(s) carry an id that one of the {start} ammo acquired earlier in the run already carried"
+  else "ok"
+
 /-- all ids distinct -/
 def idsUnique (ids : List Nat) : Bool :=
   let rec go : List Nat → Bool
